@@ -196,6 +196,8 @@ impl<'a, D> BfsDist<'a, D> {
         let visited_ptr = visited.as_mut_ptr();
 
         for u in sources {
+            assert!(u < order, "u = {u} isn't in the digraph");
+
             queue.push_back((u, 0));
 
             unsafe {
